@@ -33,3 +33,16 @@ Print Assumptions onehot_is_injective.
 (* without re-keying every re-encoded action earns 0 (the former Sparsify/Densify(action=True)) *)
 Theorem stale_reward_function_refuted : binary_reward Z.eqb 1%Z 1%Q (1 + 100)%Z = 0%Q /\ binary_reward Z.eqb 1%Z 1%Q 1%Z = 1%Q.
 Proof. exact stale_reward_refuted. Qed.
+
+(* the precondition of reward_aligned - the representation change keeps the offered actions distinct - holds for the flat one-hot encoding of dense actions
+   (EncodeCatRows('onehot'): what Finalize and Repr('onehot', .) apply), as the code computes it (C13.ModelEncodeCat.encode_flat, the in-place editing loop):
+   rows of one layout (numbers and categoricals at the same places, each categorical naming one of the declared levels of its place) that encode alike are equal,
+   so an action set of pairwise distinct actions is still pairwise distinct after the encoding *)
+From Coba Require C13.ModelEncodeCat C10.ProofsOnehotRows.
+Theorem flat_onehot_rows_stay_distinct : forall acts, (forall a b, In a acts -> In b acts -> ProofsOnehotRows.same_layout a b) -> NoDup acts ->
+  NoDup (map ModelEncodeCat.encode_flat acts).
+Proof. exact ProofsOnehotRows.encode_flat_keeps_actions_distinct. Qed.
+Print Assumptions flat_onehot_rows_stay_distinct.
+Theorem flat_onehot_rows_injective : forall o1 o2, ProofsOnehotRows.same_layout o1 o2 -> ModelEncodeCat.encode_flat o1 = ModelEncodeCat.encode_flat o2 -> o1 = o2.
+Proof. exact ProofsOnehotRows.encode_flat_injective. Qed.
+Print Assumptions flat_onehot_rows_injective.
